@@ -21,7 +21,7 @@ of `hist`" (`Op.crash k`).
   operation boundary, or is the state between the two writes of a CommissioningComplete.
   `C11_full_crash_prefix` (always a boundary) is refuted by the replay of the open finding
   `C11-complete-crash-between-writes` (`C11_full_crash_prefix_false`) and proved under the decidable
-  exclusion `isMidCommit … = false` (`crash_prefix_except_mid_commit`).
+  exclusion `hasTwoWriteComplete … = false` (`crash_prefix_single_write`).
 * `boundary_store_is_committed`: at every operation boundary the store holds exactly what the
   acknowledgements established for the fabric of an acknowledged write / removal / completion
   (`acked_write_is_stored`, `acked_removal_is_stored`, `commit_is_joint` of C08).
